@@ -52,7 +52,7 @@ func runC06(c *vf.Ctx) {
 	if !c.Active(sub) {
 		return
 	}
-	n := c.N(600, 120000)
+	n := c.N(3000, 120000)
 	var publishes, merges atomic.Int64
 	pcache.SetVerifTap(func(point string) {
 		switch point {
